@@ -8,6 +8,7 @@ import (
 	"errors"
 	"fmt"
 	"math"
+	"math/big"
 	"testing"
 	"time"
 
@@ -24,6 +25,15 @@ type conf struct {
 	cfg      sync.Config
 	driftPPB int64
 	ok       bool
+	// driftFixed, when non-zero, is what the clock's Drift(interval) returns
+	driftFixed time.Duration
+}
+
+func (c conf) drift() time.Duration {
+	if c.driftFixed != 0 {
+		return c.driftFixed
+	}
+	return time.Duration(int64(c.cfg.SyncInterval) * c.driftPPB / 1_000_000_000)
 }
 
 func confs() []conf {
@@ -31,27 +41,36 @@ func confs() []conf {
 	d := sync.Config{ReferenceClockImpact: 1.25, PeerClockImpact: 2.5, PeerClockCutoff: 50 * time.Microsecond, SyncTimeout: 500 * time.Millisecond, SyncInterval: time.Second}
 	mod := func(f func(c *sync.Config)) sync.Config { c := d; f(&c); return c }
 	return []conf{
-		{"default", d, 50_000, true},
+		{"default", d, 50_000, true, 0},
 		{"edge-factors-tiny-drift", mod(func(c *sync.Config) {
 			c.ReferenceClockImpact = ulp(1.0)
 			c.PeerClockImpact = ulp(ulp(1.0) + 1.0)
 			c.PeerClockCutoff = 1
-		}), 2, true},
+		}), 2, true, 0},
 		{"long-interval-zero-cutoff", mod(func(c *sync.Config) {
 			c.ReferenceClockImpact, c.PeerClockImpact, c.PeerClockCutoff, c.SyncInterval, c.SyncTimeout = 4, 6, 0, 64*time.Second, 32*time.Second
-		}), 500_000, true},
-		{"timeout-zero", mod(func(c *sync.Config) { c.SyncTimeout = 0 }), 50_000, true},
+		}), 500_000, true, 0},
+		{"timeout-zero", mod(func(c *sync.Config) { c.SyncTimeout = 0 }), 50_000, true, 0},
+		// admissible settings whose bounds are near the ends of the int64 range: the
+		// bound of 2^53 ns is the first at which float64 cannot tell b from b+1, and
+		// bounds of 5e18 / 7e18 ns put the two contributions 1.2e19 ns apart
+		{"bound-2^53", mod(func(c *sync.Config) {
+			c.ReferenceClockImpact, c.PeerClockImpact, c.SyncInterval, c.SyncTimeout = 2, 4, time.Duration(1)<<52, time.Second
+		}), 0, true, time.Duration(1) << 52},
+		{"bounds-5e18-7e18", mod(func(c *sync.Config) {
+			c.ReferenceClockImpact, c.PeerClockImpact, c.SyncInterval, c.SyncTimeout = 5, 7, time.Duration(1e18), time.Second
+		}), 0, true, time.Duration(1e18)},
 		// settings that would void the bound: refused at start-up
-		{"bad-ref-factor-1", mod(func(c *sync.Config) { c.ReferenceClockImpact = 1.0 }), 50_000, false},
-		{"bad-ref-factor-below-1", mod(func(c *sync.Config) { c.ReferenceClockImpact = math.Nextafter(1.0, 0) }), 50_000, false},
-		{"bad-ref-factor-negative", mod(func(c *sync.Config) { c.ReferenceClockImpact = -3 }), 50_000, false},
-		{"bad-peer-factor-1", mod(func(c *sync.Config) { c.PeerClockImpact = 1.0; c.ReferenceClockImpact = 1.0000001 }), 50_000, false},
-		{"bad-peer-minus-1-equals-ref", mod(func(c *sync.Config) { c.PeerClockImpact = 2.25 }), 50_000, false},
-		{"bad-peer-minus-1-below-ref", mod(func(c *sync.Config) { c.PeerClockImpact = math.Nextafter(2.25, 0) }), 50_000, false},
-		{"bad-interval-0", mod(func(c *sync.Config) { c.SyncInterval = 0; c.SyncTimeout = 0 }), 50_000, false},
-		{"bad-interval-negative", mod(func(c *sync.Config) { c.SyncInterval = -1; c.SyncTimeout = 0 }), 50_000, false},
-		{"bad-timeout-above-half", mod(func(c *sync.Config) { c.SyncTimeout = c.SyncInterval/2 + 1 }), 50_000, false},
-		{"bad-timeout-negative", mod(func(c *sync.Config) { c.SyncTimeout = -1 }), 50_000, false},
+		{"bad-ref-factor-1", mod(func(c *sync.Config) { c.ReferenceClockImpact = 1.0 }), 50_000, false, 0},
+		{"bad-ref-factor-below-1", mod(func(c *sync.Config) { c.ReferenceClockImpact = math.Nextafter(1.0, 0) }), 50_000, false, 0},
+		{"bad-ref-factor-negative", mod(func(c *sync.Config) { c.ReferenceClockImpact = -3 }), 50_000, false, 0},
+		{"bad-peer-factor-1", mod(func(c *sync.Config) { c.PeerClockImpact = 1.0; c.ReferenceClockImpact = 1.0000001 }), 50_000, false, 0},
+		{"bad-peer-minus-1-equals-ref", mod(func(c *sync.Config) { c.PeerClockImpact = 2.25 }), 50_000, false, 0},
+		{"bad-peer-minus-1-below-ref", mod(func(c *sync.Config) { c.PeerClockImpact = math.Nextafter(2.25, 0) }), 50_000, false, 0},
+		{"bad-interval-0", mod(func(c *sync.Config) { c.SyncInterval = 0; c.SyncTimeout = 0 }), 50_000, false, 0},
+		{"bad-interval-negative", mod(func(c *sync.Config) { c.SyncInterval = -1; c.SyncTimeout = 0 }), 50_000, false, 0},
+		{"bad-timeout-above-half", mod(func(c *sync.Config) { c.SyncTimeout = c.SyncInterval/2 + 1 }), 50_000, false, 0},
+		{"bad-timeout-negative", mod(func(c *sync.Config) { c.SyncTimeout = -1 }), 50_000, false, 0},
 	}
 }
 
@@ -102,7 +121,7 @@ func (s *src) MeasureClockOffset(ctx context.Context) (time.Time, time.Duration,
 }
 
 func values(c conf) []time.Duration {
-	drift := time.Duration(int64(c.cfg.SyncInterval) * c.driftPPB / 1_000_000_000)
+	drift := c.drift()
 	rm := time.Duration(c.cfg.ReferenceClockImpact * float64(drift))
 	pm := time.Duration(c.cfg.PeerClockImpact * float64(drift))
 	cut := c.cfg.PeerClockCutoff
@@ -128,10 +147,15 @@ func sgn(d time.Duration) float64 {
 	return 0
 }
 
-// reference model of one round in which every source answered in time
+// reference model of one round in which every source answered in time, in exact
+// arithmetic: bounds are the real products factor x drift, comparisons and the
+// midpoint are computed without rounding or wrap-around
 func model(c conf, drift time.Duration, refs, peers []time.Duration) time.Duration {
-	refMax := c.cfg.ReferenceClockImpact * float64(drift)
-	peerMax := c.cfg.PeerClockImpact * float64(drift)
+	bound := func(f float64) *big.Rat {
+		b := new(big.Rat).SetFloat64(f)
+		return b.Mul(b, new(big.Rat).SetInt64(int64(drift)))
+	}
+	refMax, peerMax := bound(c.cfg.ReferenceClockImpact), bound(c.cfg.PeerClockImpact)
 	agg := func(vs []time.Duration) time.Duration {
 		ms := make([]measurements.Measurement, len(vs))
 		for i, v := range vs {
@@ -139,26 +163,34 @@ func model(c conf, drift time.Duration, refs, peers []time.Duration) time.Durati
 		}
 		return measurements.FaultTolerantMidpoint(ms).Offset
 	}
+	clamp := func(v time.Duration, max *big.Rat) time.Duration {
+		a := new(big.Int).Abs(big.NewInt(int64(v)))
+		if new(big.Rat).SetInt(a).Cmp(max) <= 0 {
+			return v
+		}
+		fl := new(big.Int).Quo(max.Num(), max.Denom()) // floor of a positive bound
+		if !fl.IsInt64() {
+			return v // the bound is beyond the int64 range: nothing to clamp
+		}
+		return time.Duration(sgn(v)) * time.Duration(fl.Int64())
+	}
 	var r, p time.Duration
 	refOk, peerOk := len(refs) > 0, false
 	if refOk {
-		r = agg(refs)
-		if float64(r.Abs()) > refMax {
-			r = time.Duration(sgn(r) * refMax)
-		}
+		r = clamp(agg(refs), refMax)
 	}
 	if len(peers) > 0 {
 		p = agg(append(append([]time.Duration{}, peers...), 0)) // the local clock takes part as a peer reporting 0
 		if p.Abs() > c.cfg.PeerClockCutoff {
 			peerOk = true
-			if float64(p.Abs()) > peerMax {
-				p = time.Duration(sgn(p) * peerMax)
-			}
+			p = clamp(p, peerMax)
 		}
 	}
 	switch {
 	case refOk && peerOk:
-		return r + (p-r)/2
+		d := new(big.Int).Sub(big.NewInt(int64(p)), big.NewInt(int64(r)))
+		d.Quo(d, big.NewInt(2))
+		return time.Duration(d.Add(d, big.NewInt(int64(r))).Int64())
 	case refOk:
 		return r
 	case peerOk:
@@ -172,6 +204,7 @@ func program(r *mc.Run, c conf, nref, npeer, rounds int, freeValues bool) func(x
 	return func(x *mc.X) {
 		world.Run(r.T, x, func(w *world.World) {
 			w.Clock.DriftPPB = c.driftPPB
+			w.Clock.DriftFixed = c.driftFixed
 			round := 0
 			mk := func(n int, tag string) ([]*src, []client.ReferenceClock) {
 				ss := make([]*src, n)
@@ -281,6 +314,7 @@ func startup(r *mc.Run, c conf) {
 	r.Explore(mc.Config{Name: "startup/" + c.name, Bound: -1, ShardN: 1}, func(x *mc.X) {
 		world.Run(r.T, x, func(w *world.World) {
 			w.Clock.DriftPPB = c.driftPPB
+			w.Clock.DriftFixed = c.driftFixed
 			round := 0
 			s := &src{w: w, name: "ref0", round: &round, plan: map[int]struct {
 				b int
@@ -330,6 +364,6 @@ func TestCheck(t *testing.T) {
 				}
 			}
 		}
-		r.Extra["rule"] = "3 admissible configurations (a fourth, zero timeout, for start-up acceptance only) x {0,1,2,4} reference clocks x {0,1,3} peers; per round a group value per source group from a 19-value alphabet around cutoff / caps / int64 extremes, per source {in time, other value, error, late, blocked until cancelled, never returns}; layer 1: one round, all value pairs, <=2 (3) source deviations; layer 2: 3 (4) rounds within 3 (4) deviations; 10 inadmissible configurations must be refused before any measurement"
+		r.Extra["rule"] = "5 admissible configurations (default, edge factors with tiny drift, long interval with zero cutoff, a bound of exactly 2^53 ns, bounds of 5e18 / 7e18 ns; a sixth, zero timeout, for start-up acceptance only) x {0,1,2,4} reference clocks x {0,1,3} peers; per round a group value per source group from a 19-value alphabet around cutoff / caps / int64 extremes, per source {in time, other value, error, late, blocked until cancelled, never returns}; layer 1: one round, all value pairs, <=2 (3) source deviations; layer 2: 3 (4) rounds within 3 (4) deviations; 10 inadmissible configurations must be refused before any measurement"
 	})
 }
